@@ -779,6 +779,62 @@ def check_module(mod, tree):
         raise Unsupported(f"{mod}: module-level statement `{ast.unparse(n)[:60]}`")
 
 
+def translate_function(mod, name, fns):
+    if name not in fns:
+        raise Unsupported(f"{mod}.{name} not found")
+    fn = fns[name]
+    F = Fn(mod, fn)
+    a = fn.args
+    if a.vararg or a.kwarg or a.kwonlyargs or a.posonlyargs:
+        raise Unsupported(f"{mod}.{name}: parameter kinds")
+    kinds = []
+    for p in a.args:
+        ann = ast.unparse(p.annotation) if p.annotation else None
+        if ann not in ANN:
+            raise Unsupported(f"{mod}.{name}: annotation {ann}")
+        k = "I" if (mod, name, p.arg) in INT_PARAMS else ANN[ann]
+        F.types[p.arg] = k; kinds.append(k)
+    rann = ast.unparse(fn.returns) if fn.returns else None
+    rk = {"bytes": "B", "str": "S", "int": "N"}.get(rann)
+    if rk is None:
+        raise Unsupported(f"{mod}.{name}: return annotation {rann}")
+    body = []
+    if not F.block(fn.body, body, "  ", rk):
+        raise Unsupported(f"{mod}.{name}: a path does not return")
+    sig = " ".join(f"({v(p.arg)} : {LEAN_TY[k]})" for p, k in zip(a.args, kinds))
+    pure = not any(("←" in ln) or ("throw" in ln) or (" if " in ln) or ln.strip().startswith("if ") for ln in body)
+    out = list(F.pre_defs)
+    if pure:
+        out.append(f"def {name} {sig} : {LEAN_TY[rk]} :=")
+        out += [ln.replace("  pure ", "  ", 1) if ln.strip().startswith("pure ") else ln for ln in body]
+    else:
+        out.append(f"def {name} {sig} : R {LEAN_TY[rk]} := do")
+        out += body
+    out.append("")
+    GEN[f"{mod}.{name}"] = (f"Gen.{mod}.{name}", kinds, rk, not pure)
+    return out
+
+
+# signatures of the translated functions on the pinned tree: what a stand-in for an untranslatable one looks like
+SHAPES = {}
+
+
+def placeholder(mod, name, fn):
+    """a definition with the pinned signature that raises on every input (no refinement theorem holds of it)"""
+    kinds, rk = SHAPES.get(f"{mod}.{name}", (None, None))
+    if kinds is None:
+        kinds = []; rk = "B"
+        if fn is not None:
+            for p in fn.args.args:
+                ann = ast.unparse(p.annotation) if p.annotation else None
+                kinds.append("I" if (mod, name, p.arg) in INT_PARAMS else ANN.get(ann, "B"))
+            rk = {"bytes": "B", "str": "S", "int": "N"}.get(ast.unparse(fn.returns) if fn and fn.returns else None, "B")
+    sig = " ".join(f"(_a{i} : {LEAN_TY[k]})" for i, k in enumerate(kinds))
+    GEN[f"{mod}.{name}"] = (f"Gen.{mod}.{name}", kinds, rk, True)
+    return [f"/-- UNTRANSLATED: the current source of `{mod}.{name}` is outside the translator's subset -/",
+            f"def {name} {sig} : R {LEAN_TY[rk]} := throw .valueError", ""]
+
+
 def translate(repo):
     out = ["import PyemvModel",
            "/-! GENERATED by harness/translate_py.py from pyemv/{tools,mac,ac,kd,sm,cvv}.py — do not edit. -/",
@@ -788,60 +844,44 @@ def translate(repo):
            "/-- `a % b` / `a // b` on non-negative integers; `ZeroDivisionError` when `b = 0` -/",
            "def pyMod (a b : Nat) : R Nat := if b = 0 then .error .zeroDivision else .ok (a % b)",
            "def pyDiv (a b : Nat) : R Nat := if b = 0 then .error .zeroDivision else .ok (a / b)", ""]
+    failures = {}
     for mod, names in FUNCS.items():
         tree = ast.parse(open(os.path.join(repo, "pyemv", mod + ".py")).read())
-        check_module(mod, tree)
+        mod_problem = None
+        try:
+            check_module(mod, tree)
+        except Unsupported as e:
+            mod_problem = str(e)                         # module-level state / decorators: no function of it can be trusted
         fns = {n.name: n for n in tree.body if isinstance(n, ast.FunctionDef)}
         out.append(f"namespace {mod}")
         for name in names:
-            if name not in fns:
-                raise Unsupported(f"{mod}.{name} not found")
-            fn = fns[name]
-            F = Fn(mod, fn)
-            a = fn.args
-            if a.vararg or a.kwarg or a.kwonlyargs or a.posonlyargs:
-                raise Unsupported(f"{mod}.{name}: parameter kinds")
-            kinds = []
-            for p in a.args:
-                ann = ast.unparse(p.annotation) if p.annotation else None
-                if ann not in ANN:
-                    raise Unsupported(f"{mod}.{name}: annotation {ann}")
-                k = "I" if (mod, name, p.arg) in INT_PARAMS else ANN[ann]
-                F.types[p.arg] = k; kinds.append(k)
-            rann = ast.unparse(fn.returns) if fn.returns else None
-            rk = {"bytes": "B", "str": "S", "int": "N"}.get(rann)
-            if rk is None:
-                raise Unsupported(f"{mod}.{name}: return annotation {rann}")
-            body = []
-            if not F.block(fn.body, body, "  ", rk):
-                raise Unsupported(f"{mod}.{name}: a path does not return")
-            sig = " ".join(f"({v(p.arg)} : {LEAN_TY[k]})" for p, k in zip(a.args, kinds))
-            pure = not any(("←" in ln) or ("throw" in ln) or (" if " in ln) or ln.strip().startswith("if ") for ln in body)
-            out += F.pre_defs
-            if pure:
-                out.append(f"def {name} {sig} : {LEAN_TY[rk]} :=")
-                out += [ln.replace("  pure ", "  ", 1) if ln.strip().startswith("pure ") else ln for ln in body]
-            else:
-                out.append(f"def {name} {sig} : R {LEAN_TY[rk]} := do")
-                out += body
-            out.append("")
-            GEN[f"{mod}.{name}"] = (f"Gen.{mod}.{name}", kinds, rk, not pure)
+            try:
+                if mod_problem:
+                    raise Unsupported(mod_problem)
+                out += translate_function(mod, name, fns)
+            except Unsupported as e:
+                # an untranslatable function is replaced by a stand-in of the same shape that no refinement theorem can
+                # be proved about; its own theorem and those of its callers fail, nothing else does
+                failures[f"{mod}.{name}"] = str(e)
+                out += placeholder(mod, name, fns.get(name))
         out.append(f"end {mod}")
         out.append("")
     out.append("end Pyemv.Gen")
-    return "\n".join(out) + "\n"
+    return "\n".join(out) + "\n", failures
 
 
 if __name__ == "__main__":
-    try:
-        text = translate(sys.argv[1])
-    except Unsupported as e:
-        print("translate_py: unsupported construct: " + str(e))
-        sys.exit(3)
+    import json
+    text, failures = translate(sys.argv[1])
     path = sys.argv[2]
+    with open(path + ".failures.json", "w") as f:
+        json.dump(failures, f, indent=1)
+    for k, m in failures.items():
+        print(f"translate_py: unsupported construct in {k}: {m}")
     old = open(path).read() if os.path.exists(path) else None
     if old != text:
         os.makedirs(os.path.dirname(path), exist_ok=True)
         with open(path, "w") as f:
             f.write(text)
-    print("translate_py: ok")
+    print("translate_py: ok" if not failures else f"translate_py: {len(failures)} function(s) not translated")
+    sys.exit(3 if failures else 0)
